@@ -17,7 +17,7 @@ GS('dtc.__sexy_to_daisy', 'dt-core', '__sexy_to_daisy', P11, [('neg', 'in_sx < 0
 ATYPS = ('DT_YMD', 'DT_YD', 'DT_YWD', 'DT_DAISY', 'DT_LDN', 'DT_MDN')
 for t in ATYPS:
     if t != 'DT_YWD':
-      G('dtc.__to_unix_epoch.' + t[3:], 'dt-core', '__to_unix_epoch', P11, ins=DT_IN, fix={'in_typ': t}, setup=DT_SET, call='__to_unix_epoch(d)', ret='dt_ssexy_t',
+      G('dtc.__to_unix_epoch.' + t[3:], 'dt-core', '__to_unix_epoch', P11 + (['C20'] if t == 'DT_DAISY' else []), ins=DT_IN, fix={'in_typ': t}, setup=DT_SET, call='__to_unix_epoch(d)', ret='dt_ssexy_t',
       replace=['dt_conv_to_daisy', 'dt_get_base/UNREACH_dt_get_base'], solvers=SV, sweep=SW)
     G('dtc.dt_dtadd.hms.' + t[3:], 'dt-core', 'dt_dtadd', P11, ins=DT_IN + [(U, 'in_dt'), ('long long', 'in_dv')], fix={'in_typ': t},
       setup=DT_SET + ' struct dt_dtdur_s dur = {(dt_dtdurtyp_t)DT_DURUNK}; dur.durtyp = (dt_dtdurtyp_t)in_dt; dur.dv = in_dv;',
@@ -34,3 +34,13 @@ for nm, dt in (('H', 'DT_DURH'), ('M', 'DT_DURM'), ('S', 'DT_DURS')):
       setup='struct dt_dt_s d = {DT_UNK}; d.sandwich = 1; d.t.typ = DT_HMS; d.t.hms.h = in_h; d.t.hms.m = in_m; d.t.hms.s = in_s; d.d.u = in_du; '
             'struct dt_dtdur_s dur = {(dt_dtdurtyp_t)DT_DURUNK}; dur.durtyp = (dt_dtdurtyp_t)in_dt; dur.dv = in_dv;',
       call='dt_dtadd(d, dur)', ret='struct dt_dt_s', replace=['dt_tadd_s', 'dt_dadd/UNREACH_dt_dadd'], solvers=['cadical'], timeout=900, sweep=SW)
+# C20: library-level facts about the clock / base
+G('dtc.massage_strpdt.full', 'dt-core', 'massage_strpdt', ['C20'], body='\tstruct strpdt_s d;\n\tmassage_strpdt(d);', replace=['dt_get_base/UNREACH_dt_get_base'], native=False, solvers=['cadical'])
+G('dtc.dt_get_base.set', 'dt-core', 'dt_get_base', ['C20'], body='\tdt_get_base();', replace=['dt_datetime/UNREACH_dt_datetime'], native=False, solvers=['cadical'])
+LIBFILES = ['lib/date-core.c', 'lib/dt-core.c', 'lib/time-core.c', 'lib/strops.c', 'lib/token.c', 'lib/dt-locale.c', 'lib/leaps.c', 'lib/tzraw.c', 'lib/tzmap.c', 'lib/dt-core-tz-glue.c']
+G('static.libdut.undefined', 'dt-core', 'libdut', ['C20'], kind='undefined', files=LIBFILES, native=False, reach=False, must=['undefined_function'],
+  bounded=dict(bound='static fact about the call graph, not a behavioural proof obligation', why='listed separately so that it is never counted as a discharged proof obligation'),
+  whitelist=['__assert_fail', '__errno_location', 'abort', 'close', 'free', 'fstat', 'getenv', 'gettimeofday', 'malloc', 'memchr', 'memcmp', 'memcpy', 'memset', 'mmap', 'munmap',
+             'open', 'snprintf', 'strcasecmp', 'strchr', 'strcmp', 'strlen', 'strncasecmp', 'strtod', 'strtol', 'time'],
+  note='supporting static fact (not a proof obligation about behaviour): libdut calls no libc time-zone / locale facility (localtime, tzset, setlocale, strftime, nl_langinfo ...); '
+       'its only clock sources are time() and gettimeofday() (reached only through dt_get_base/dt_datetime, see the two contract groups) and its only environment access is getenv() in lib/tzmap.c / lib/dt-locale.c path lookup')
